@@ -135,6 +135,9 @@ type StoreCfg struct {
 	UniqueSerial bool `json:"uniqueSerial,omitempty"`
 	// Keyed: symbols are registered with AddSymbolWithKey / AddFkSymbolWithKey, the persisted key differs from the symbol name
 	Keyed bool `json:"keyed,omitempty"`
+	// BackRefOnParent (RefTo names a child store): the reference is declared against the child store (only entities
+	// with child data are valid targets) while the back-reference set is declared on, and kept in, the parent store
+	BackRefOnParent bool `json:"backRefOnParent,omitempty"`
 }
 
 func (c StoreCfg) BackSym() string { return "refs_" + c.Name }
@@ -332,7 +335,11 @@ func NewWorld(cfg WorldCfg) (*World, error) {
 	for _, sc := range cfg.Stores {
 		if target, isKid := w.Kids[sc.RefTo]; isKid {
 			refSyms[sc.Name] = w.Stores[sc.Name].AddFkSymbolWithKey(FRef, PersistKey(sc.Keyed, FRef), target)
-			if err := wire(sc, target); err != nil {
+			var back boltz.ConfigurableStore = target
+			if sc.BackRefOnParent {
+				back = w.Stores[w.KidCfgs[sc.RefTo].Parent]
+			}
+			if err := wire(sc, back); err != nil {
 				return nil, err
 			}
 		}
@@ -681,7 +688,7 @@ func (m *Model) checkWrite(store, id string, old, next *MEnt, system bool) []str
 				if sc.RefWiring == WireFkIndex || sc.RefWiring == WireFkIndexCascade {
 					causes = append(causes, ErrEmpty)
 				}
-			} else if !m.LinkEndExists(sc.RefTo, newR) && !(sc.RefTo == store && newR == id) {
+			} else if !m.RefTargetExists(sc, newR) && !(sc.RefTo == store && newR == id) {
 				causes = append(causes, ErrNotFound)
 			}
 		}
@@ -1025,6 +1032,15 @@ func (m *Model) BaseStore(name string) string {
 		return cc.Parent
 	}
 	return name
+}
+
+// RefTargetExists: whether id is a valid target of the store's reference. The engine looks the target up in the store
+// that keeps the back-reference set: with BackRefOnParent that is the parent store, whatever the reference is declared against.
+func (m *Model) RefTargetExists(sc StoreCfg, id string) bool {
+	if sc.BackRefOnParent {
+		return m.LinkEndExists(m.BaseStore(sc.RefTo), id)
+	}
+	return m.LinkEndExists(sc.RefTo, id)
 }
 
 // LinkEndExists reports whether id exists as an entity of the given store (for a child store: has child data there).
